@@ -13,8 +13,9 @@ ScriptsQ == [1..2 -> ScriptQ]
 ScriptsB == { <<S(<<"raw">>, "base"), S(<<>>, "no")>>, <<S(<<>>, "exc"), S(<<"er">>, "no")>>, <<S(<<"raw">>, "exc")>>, <<S(<<>>, "exc"), S(<<>>, "exc")>> }
 \* thorough
 ScriptT == {S(<<>>, "no"), S(<<"raw">>, "no")}
-Scripts3 == [1..3 -> ScriptT] \cup { <<S(<<>>, "exc"), S(<<>>, "no"), S(<<"ok">>, "no")>> }
-Scripts4 == { <<S(<<>>, "no"), S(<<>>, "no"), S(<<>>, "no"), S(<<"raw">>, "no")>> }
+E == S(<<>>, "no")
+Scripts3 == { <<E, E, E>>, <<E, S(<<"raw">>, "no"), E>>, <<S(<<>>, "exc"), E, S(<<"ok">>, "no")>> }
+Scripts4 == { <<E, E, E, E>> }
 Scripts13 == [1..1 -> {S(<<"ok", "er", "raw">>, "no"), S(<<"ok", "er", "raw">>, "exc")}]
              \cup { <<S(<<"ok", "raw">>, "no"), S(<<"er">>, "exc")>> }
 ScriptsXq == { <<S(<<"ok">>, "no")>> }
@@ -26,7 +27,10 @@ OneFault(s) == {<<NoFault, NoFault, NoFault>>} \cup {<<k, NoFault, NoFault>> : k
                \cup {<<NoFault, j, NoFault>> : j \in 0..2} \cup {<<NoFault, NoFault, n>> : n \in 0..2}
 ExpFaults(s) == {<<NoFault, NoFault, NoFault>>, <<Len(s), NoFault, NoFault>>, <<NoFault, 1, NoFault>>, <<NoFault, NoFault, 0>>}
 ExpFaultsQ(s) == IF Len(s) = 1 THEN ExpFaults(s) ELSE {<<NoFault, NoFault, NoFault>>}
+Faults3(s) == IF s = <<E, E, E>> THEN OneFault(s) ELSE NoFaults(s)
+Faults4(s) == {<<NoFault, NoFault, NoFault>>}
 AnyFaults(s) == {<<k, j, n>> : k \in {NoFault} \cup (0..Len(s)), j \in {NoFault, 0, 1, 3}, n \in {NoFault, 0, 1, 2, 4}}
+SomeFaults(s) == {<<k, j, n>> : k \in {NoFault} \cup (0..Len(s)), j \in {NoFault, 1}, n \in {NoFault, 0, 2}}
 
 MCInit == \E s \in Scripts : \E f \in FaultChoices(s) : InitWith(s, f[1], f[2], f[3])
 Spec == MCInit /\ [][Next]_vars
